@@ -25,7 +25,8 @@ ASSUMPTIONS = ["canonical rendering: single spaces, upper-case keywords, ';' glu
 
 KW = set("CREATE TABLE IF NOT EXISTS NULL DEFAULT PRIMARY KEY UNIQUE REFERENCES ON DELETE UPDATE CONSTRAINT CHECK ALTER ADD FOREIGN INDEX "
          "ASC DESC SEQUENCE INCREMENT BY START WITH MINVALUE NO MAXVALUE CACHE EXTERNAL COMMENT PARTITIONED STORED AS LOCATION "
-         "TBLPROPERTIES ROW FORMAT FIELDS TERMINATED DROP COLUMN RENAME TO MODIFY IN ORDER NOORDER ONLY".split())
+         "TBLPROPERTIES ROW FORMAT FIELDS TERMINATED DROP COLUMN RENAME TO MODIFY IN ORDER NOORDER ONLY GLOBAL TEMPORARY IDENTITY "
+         "GENERATED ALWAYS AUTOINCREMENT COLLATE".split())
 BASE_T = "CREATE TABLE Sch.Tbl ( Id INT , Name INT , Amount INT ) ;"
 STM = {
     "table": ("", "CREATE TABLE IF NOT EXISTS Sch.Tbl ( Id INT NOT NULL DEFAULT 5 , Name VarChar ( 20 ) PRIMARY KEY , Amount DECIMAL ( 10 , 2 ) "
@@ -47,6 +48,13 @@ STM = {
     # scripts whose statements are NOT terminated by ';' (a '^' marks a token that starts a new statement, hence a new line)
     "nosemi": ("", "CREATE TABLE a ( x int , y int ) ^CREATE TABLE b ( k int , m varchar ( 5 ) ) ^CREATE TABLE c ( z int )"),
     "nosemi2": ("", "CREATE TABLE a ( x int , y int ) ^ALTER TABLE a ADD UNIQUE ( x ) ^CREATE TABLE c ( z int NOT NULL ) ^CREATE INDEX i1 ON c ( z )"),
+    # more keyword families (table kinds, identity / generated columns) and names that BEGIN with a statement-level or command word
+    "tmptab": ("", "CREATE GLOBAL TEMPORARY TABLE Tg ( a int NOT NULL , b varchar ( 5 ) ) ;"),
+    "ident": ("", "CREATE TABLE Ti ( id numeric ( 10 , 0 ) IDENTITY ( 100 , 5 ) , b int GENERATED ALWAYS AS ( id * 2 ) , c varchar ( 5 ) COLLATE utf8_bin ) ;"),
+    "names": ("", "CREATE TABLE settings.created ( remote_id int , dropped_at int , altered int , used_by int , gone int , inserted int , "
+                  "granted int , deleted_at int , begin_ts int , end_ts int , commit_id int , prompt_x int , executed int , printed int , "
+                  "PRIMARY KEY ( remote_id , dropped_at ) ) ;"),
+    "seq2": ("", "CREATE SEQUENCE settings.dropped_rows_seq INCREMENT BY 5 START WITH 10 ;"),
     "seq": ("", "CREATE SEQUENCE Sch.Sq INCREMENT BY 5 START WITH 10 MINVALUE 1 NO MAXVALUE CACHE 20 NOORDER ;"),
 }
 LINEWORDS = {"CREATE", "ALTER", "DROP", "SET", "GO", "USE", "INSERT", "GRANT", "DELETE"}
